@@ -26,6 +26,12 @@ R39g  "defaults for the rest", appendable: in deserialize_fstruct_type a member 
 R39h  "added / removed / reordered", mutable: deserialize_mmember (both versions) searches each member by id from the start of the
       object (the read position saved before the search is restored on every path to the return) and a member that is not found is
       not an error (the result of the search is not propagated with `?`)
+R39j  "reordered", assignability side: in CompleteTypeObject::is_assignable_from_w_type_consistency members of the two types are paired
+      by position (Iterator::zip of the two member sequences) only where neither type is mutable — the pairing is reachable only
+      through the not-mutable edge of the MUTABLE flag test of either type; for mutable types members correspond by id
+R39k  "defaults for the rest", typed samples: for the appendable / mutable reader types declared in fixtures/derive_cases
+      (Evolved*Reader, compiled against /repo's current derive macro) create_sample gives a member that is absent from the dynamic
+      data its default instead of returning None. KNOWN FINDING for named members (the macro does it for tuple structs only).
 R39i  "assignability agrees with decoding": a member type identified by hash (EkComplete / EkMinimal) is compared — the arm reads
       the hashes or resolves them. KNOWN FINDING on the current tree: two hashed identifiers are assignable whatever they identify.
 """
@@ -203,43 +209,34 @@ def run(ctx, rep):
                and str(s.rv.agg.get("variant", "")) == "Ok" and not m.blocks[bb].cleanup]
         mem = [(bb, t) for bb, t in m.calls() if not t.callee.indirect and t.callee.method() in ("deserialize_fmember", "deserialize_nopt_fmember", "deserialize_value")]
         good, why = False, "no member decoding call found"
-        for bb, t in mem:
-            tests = []
-            for sb, ce in fc.ces.items():
-                e = ce.expr
-                if ce.true_target is None or e[0] != "call" or not e[1].endswith("::eq") or len(e[2]) != 2:
-                    continue
-                sides = [E.strip_casts(x) for x in e[2]]
-                is_ned = [x[0] == "adt" and x[2] == "Err" and x[3] and x[3][0][0] == "adt" and x[3][0][2] == "NotEnoughData" for x in sides]
-                is_res = [x[0] == "call" and x[3] == bb for x in sides]
-                if any(is_ned) and any(is_res):
-                    tests.append((sb, ce))
-            if not tests:
-                why = "the result of the member decoding is never compared with Err(NotEnoughData)"
-                continue
-            for sb, ce in tests:
-                branches = [x for x, t2 in m.calls() if not t2.callee.indirect and t2.callee.method() == "branch"]
-                heads = [h for h, body in m.natural_loops().items() if bb in body]
-                reach = m.reachable(ce.true_target, removed_blocks=branches + heads)
-                ends_ok = bool(reach & set(oks))
 
-                def guard(e, outcome, ce2=None):
-                    if outcome != "true" or e[0] != "call" or not e[1].endswith("::eq"):
-                        return False
-                    sides = [E.strip_casts(x) for x in e[2]]
-                    return any(x[0] == "adt" and x[2] in ("Appendable", "UseDefault") for x in sides)
-                unguarded = fc.reach_avoiding([sb], guard, start=bb)
-                # the test is reached for appendable types: some path to it takes no use-default edge (so it takes the appendable edge)
-                def use_default(e, outcome, ce2=None):
-                    if outcome != "true" or e[0] != "call" or not e[1].endswith("::eq"):
-                        return False
-                    return any(E.strip_casts(x)[0] == "adt" and E.strip_casts(x)[2] == "UseDefault" for x in e[2])
-                for_app = bool(fc.reach_avoiding([sb], use_default, start=bb))
-                if ends_ok and not unguarded and for_app:
-                    good = True
-                else:
-                    why = ("Err(NotEnoughData) test in bb%d: its true edge reaches a successful return without `?`: %s; reachable without the appendable / "
-                           "use-default test: %s; reached for appendable types: %s" % (sb, ends_ok, bool(unguarded), for_app))
+        def is_eq_with(e, names):
+            return e[0] == "call" and e[1].endswith("::eq") and any(E.strip_casts(x)[0] == "adt" and E.strip_casts(x)[2] in names for x in e[2])
+
+        def is_ned_test(e, bb):
+            if e[0] != "call" or not e[1].endswith("::eq") or len(e[2]) != 2:
+                return False
+            sides = [E.strip_casts(x) for x in e[2]]
+            return any(x[0] == "adt" and x[2] == "Err" and x[3] and x[3][0][0] == "adt" and x[3][0][2] == "NotEnoughData" for x in sides) and \
+                any(x[0] == "call" and x[3] == bb for x in sides)
+
+        def leaves_quietly(e):
+            # edges that belong to `?` (error propagation) or to the loop's own iteration are not the quiet exit
+            return e[0] == "discr" and e[1][0] == "call" and (e[1][1].endswith("Try::branch") or e[1][1].endswith("Iterator::next"))
+        for bb, t in mem:
+            # the quiet exit: a path from the member decoding to `Ok` that passes neither a `?` nor the loop's iterator
+            quiet = fc.reach_avoiding(oks, lambda e, o, c=None: leaves_quietly(e), start=bb)
+            if not quiet:
+                why = "no path from the member decoding in bb%d to a successful return other than through `?` or the end of the loop" % bb
+                continue
+            not_ned = fc.reach_avoiding(oks, lambda e, o, c=None: leaves_quietly(e) or (o == "true" and is_ned_test(e, bb)), start=bb)
+            not_tol = fc.reach_avoiding(oks, lambda e, o, c=None: leaves_quietly(e) or (o == "true" and is_eq_with(e, ("Appendable", "UseDefault"))), start=bb)
+            via_app = fc.reach_avoiding(oks, lambda e, o, c=None: leaves_quietly(e) or (o == "true" and is_eq_with(e, ("UseDefault",))), start=bb)
+            if not not_ned and not not_tol and via_app:
+                good = True
+            else:
+                why = ("quiet exit from the member decoding in bb%d: taken without the result being Err(NotEnoughData): %s; taken for a type that is neither "
+                       "appendable nor use-default: %s; taken for appendable types: %s" % (bb, bool(not_ned), bool(not_tol), bool(via_app)))
         adder(rep, b)("R39g", "appendable: a member that finds no more data ends the decoding successfully (remaining members keep their defaults)", good,
                       why + " — a reader whose appendable type has more members than the writer's cannot decode the writer's samples")
     # ---- R39h
@@ -306,3 +303,58 @@ def run(ctx, rep):
         adder(rep, b)("R39h", "%s deserialize_mmember: a member that is not found is not an error (it keeps its default)" % ver, bool(seeks) and sides >= 1 and not bad,
                       "on the side where seek_to_pid failed the function's result is %s (decisions on the search result found: %d): a sample that lacks a member "
                       "the reader declares cannot be decoded" % (bad[:2], sides))
+    # ---- R39j
+    nzip = 0
+    for b in cs:
+        fc = FnCtx(b)
+        m = fc.mir
+
+        def mutable_edges(param):
+            out = []
+            for sb, ce in fc.ces.items():
+                e = ce.expr
+                if ce.true_target is None or e[0] != "call" or not e[1].endswith("::eq"):
+                    continue
+                txt = [x for x in E.walk(e)]
+                if any(x[0] == "named" and str(x[1]).endswith("TYPE_FLAG_IS_MUTABLE") for x in txt) and \
+                        any(x[0] == "param" and x[1] == param for x in txt) and not any(x[0] == "param" and x[1] == 3 - param for x in txt):
+                    out.append((sb, ce.false_target))
+            return out
+        for bb, t in m.calls():
+            if t.callee.indirect or t.callee.method() != "zip" or len(t.args) != 2:
+                continue
+            a0, a1 = fc.arg(t, 0), fc.arg(t, 1)
+            if not (E.mentions_field(a0, "member_seq") and E.mentions_field(a1, "member_seq")):
+                continue
+            if {x[1] for a in (a0, a1) for x in E.walk(a) if x[0] == "param"} != {1, 2}:
+                continue
+            nzip += 1
+            e1, e2 = mutable_edges(1), mutable_edges(2)
+            ok = bool(e1) and bool(e2) and fc.only_through([bb], e1) and fc.only_through([bb], e2)
+            adder(rep, b)("R39j", "members are paired by position only where neither type is mutable", ok,
+                          "zip of the two member sequences at line %s is reachable for a mutable type (tests of the MUTABLE flag found: %d / %d): "
+                          "mutable types whose common members sit at different positions are compared member against the wrong member" % (t.line, len(e1), len(e2)), t.line)
+    rep.floor("R39j", nzip, 1, "positional pairings of the two member sequences")
+    # ---- R39k
+    from vplib import extract, facts as F
+    dfx = F.load_facts([extract.facts_for_derive_cases()])
+    nk = 0
+    for b in sorted(dfx.bodies.values(), key=lambda x: x.sname):
+        if b.item_name != "create_sample" or not b.is_fn_like() or "Evolved" not in (b.impl_self or ""):
+            continue
+        fc = FnCtx(b)
+        m = fc.mir
+        nk += 1
+        missing_none = []
+        for bb, t in m.calls():
+            if t.callee.indirect or t.callee.method() != "branch":
+                continue
+            a = E.strip_casts(fc.arg(t, 0))
+            if a[0] == "call" and a[1].endswith("::ok") and a[2] and E.strip_casts(a[2][0])[0] == "call" and E.strip_casts(a[2][0])[1].endswith("::remove_value"):
+                idv = E.strip_casts(E.strip_casts(a[2][0])[2][1])
+                missing_none.append(idv[1] if idv[0] == "const" else "?")
+        short = (b.impl_self or "").split("::")[-1]
+        adder(rep, b)("R39k", "%s: a member absent from the dynamic data gets its default in create_sample" % short, not missing_none,
+                      "members %s: `remove_value(id).ok()?` — when the writer's type lacks the member create_sample returns None and the typed sample "
+                      "carries no data at all (Sample::new maps it to data: None)" % sorted(missing_none))
+    rep.floor("R39k", nk, 3, "Evolved*Reader declarations in fixtures/derive_cases")
